@@ -1,7 +1,7 @@
 (** Pinned statements of the C16 property theorems: compiled on every check, so a theorem
     cannot be weakened silently. *)
 From V Require Import Base.Util Gql.Ast Writer.Wop C16.Model C16.Spec
-  C16.ProofsTemplate C16.ProofsString C16.ProofsStrip C16.ProofsDoc C16.ProofsReindent C16.Proofs C16.Properties.
+  C16.ProofsTemplate C16.ProofsString C16.ProofsStrip C16.ProofsDoc C16.ProofsReindent C16.ProofsGlue C16.Proofs C16.Properties.
 Local Open Scope N_scope.
 
 Check (C16_template_roundtrip : forall ops,
@@ -18,6 +18,9 @@ Check (C16_server_module_value : forall model_plugin d,
   tsdoc_ok (spec_server_schema model_plugin d) = true ->
   module_value (server_module model_plugin d)
   = Some (LF :: just_run (print_tsdoc (spec_server_schema model_plugin d)))).
+Check (C16_print_never_glues_tsdoc : forall d, ProofsGlue.G (print_tsdoc d) = true).
+Check (C16_print_never_glues_tsdoc_ext : forall d, ProofsGlue.G (print_tsdoc_ext d) = true).
+Check (C16_print_never_glues_opdoc : forall d, ProofsGlue.G (print_opdoc d) = true).
 Check (C16_print_string_lex_partial : forall x rest,
   plain x = true -> starts_quote rest = false ->
   exists t, lex_string (print_string x ++ rest) = Some (t, rest) /\ value_nitrogql t = x).
@@ -68,6 +71,9 @@ Print Assumptions C16_tsdoc_template_roundtrip.
 Print Assumptions C16_tsdoc_ext_template_roundtrip.
 Print Assumptions C16_opdoc_template_roundtrip.
 Print Assumptions C16_server_module_value.
+Print Assumptions C16_print_never_glues_tsdoc.
+Print Assumptions C16_print_never_glues_tsdoc_ext.
+Print Assumptions C16_print_never_glues_opdoc.
 Print Assumptions C16_print_string_lex_partial.
 Print Assumptions C16_print_string_lex_spec.
 Print Assumptions C16_strip_only_nitrogql.
